@@ -202,9 +202,28 @@ def rule_v1(F):
         if rw is None:
             continue
         inner = hir.find_match_on(rw["body"], enum)
+        cld, pmap = ld, {}
+        if not inner:
+            # the table may live in a helper of the evaluator (`compare_ints(cmp, left, right)`): read it there, with the helper's
+            # parameters standing for what the arm hands over
+            for c in list(hir.nodes(rw["body"], "call")) + list(hir.nodes(rw["body"], "mcall")):
+                hb = F.body(hir.call_def(c) or "") if (hir.call_def(c) or "").startswith("lir::eval::") else None
+                if hb is None or not hb.hir or not hir.find_match_on(hb.hir["value"], enum):
+                    continue
+                inner = hir.find_match_on(hb.hir["value"], enum)
+                cld = hir.LocalDefs(hb.hir)
+                args = ([c["recv"]] if c.get("k") == "mcall" else []) + list(c["args"])
+                for p_, a_ in zip(hb.hir.get("params") or [], args):
+                    ar = field_roots(ld, a_) - {"vars", "param:vars"}
+                    if len(ar) == 1:
+                        pmap["param:" + str(p_.get("name"))] = next(iter(ar))
+                break
         if not inner:
             r.bad(b.path, iname, relfile(b.file), rw["line"], "no match over %s in the %s arm" % (enum, iname))
             continue
+
+        def fix(rs):
+            return {pmap.get(x, x) for x in rs}
         e_adt = F.adt("lir::" + enum[:-2])
         variants = [v["name"] for v in e_adt["variants"]] if e_adt else []
         irows = hir.table(inner[0])
@@ -221,9 +240,10 @@ def rule_v1(F):
                 want_op = CMPOP.get(v[-2:])
                 want_acc = acc or ("as_u64" if v[0] == "U" else "as_i64")
             if enum == "FloatCmp::":
-                tt = ordering_truth(ld, body)
+                tt = ordering_truth(cld, body)
                 if tt is not None:
                     truth, operands, accs = tt
+                    operands = [sorted(fix(o)) for o in operands]
                     want = FLOAT_TRUTH[v]
                     r.inst(key, {"row": key, "form": "partial_cmp", "true_for": sorted(truth), "expected": sorted(want), "operands": operands})
                     if truth != want:
@@ -241,7 +261,7 @@ def rule_v1(F):
             for s in (body["a"], body["b"]):
                 s = hir.strip(s)
                 a = s["m"] if s.get("k") == "mcall" and s["m"].startswith("as_") else None
-                sides.append((a, field_roots(ld, s) - {"vars", "param:vars"}))
+                sides.append((a, fix(field_roots(cld, s) - {"vars", "param:vars"})))
             r.inst(key, {"row": key, "op": op, "accessors": [sides[0][0], sides[1][0]], "operands": [sorted(sides[0][1]), sorted(sides[1][1])]})
             if op != want_op:
                 r.bad(b.path, key, relfile(b.file), row["line"], "%s is evaluated with `%s`, the code generator uses the condition for `%s`" % (key, op, want_op))
